@@ -16,13 +16,13 @@ import (
 func init() {
 	core.Register(&core.Property{
 		ID: "C18",
-		Rule: "lock-step reference loop on scripted outcome sequences: k in 0..8 plain errors followed by every ending {success, fatal error nested 1-3 deep, cancellation before the first call, cancellation inside the call in flight (which then errs / succeeds / fails fatally), cancellation inside the wait} x rates {<=0, 1ns, 1us, 300ms} (complete), x context kinds {WithCancel, WithCancelCause with a custom cause, deadline ten minutes ahead that is never reached, child of a context cancelled with a cause} (the error to report is ctx.Err(), never the cause, and a far deadline changes nothing), " +
+		Rule: "lock-step reference loop on scripted outcome sequences: k in 0..8 plain errors followed by every ending {success, fatal error nested 1-3 deep, cancellation before the first call, cancellation inside the call in flight (which then errs / succeeds / fails fatally), cancellation inside the wait} x rates {<=0, 1ns, 1us, 300ms, 2.5s, 4.294967298s = the largest rate whose largest delay fits a Duration} (complete), x context kinds {WithCancel, WithCancelCause with a custom cause, deadline ten minutes ahead that is never reached, child of a context cancelled with a cause} (the error to report is ctx.Err(), never the cause, and a far deadline changes nothing), " +
 			"each returned function invoked twice in a row (the attempt counter restarts), plus long scripts of 40 plain errors (cap at 31); delays observed through VerifRetryObserve (observers call through to the real calcExponentialRetry / waitDuration; most scenarios skip the real wait = virtual time); " +
 			"real-wait family: elapsed heartbeats for tiny delays, prompt return when cancelled during a long wait, and a context with a real 5-35 ms deadline (the function may return only once ctx.Err() is non-nil, with DeadlineExceeded). oracle: number and order of calls, result and error identity (innermost error, not fatal), delay a whole number of slots in [0, 2^c-1] x rate (300ms when rate<=0), wait requested with exactly that delay, no call after cancellation was observed. " +
 			"non-trivial = at least one retry (k>=1) happened; distinct = distinct scripts",
 		Assumptions: []string{"VerifRetryObserve swaps package-level variables, so scenarios run one at a time in their child process", "the distribution of the random slot is not checked, only its range (max slot per k is reported)"},
 		Families: []core.Family{
-			{Name: "scripted", N: core.TierN(4, 4), Solo: true, Run: c18Scripted},
+			{Name: "scripted", N: core.TierN(6, 6), Solo: true, Run: c18Scripted},
 			{Name: "random-long", N: core.TierN(60, 2400), Batch: 5, Run: c18RandomLong},
 			{Name: "real-wait", N: core.TierN(24, 480), Batch: 4, Run: c18RealWait},
 		},
@@ -30,6 +30,9 @@ func init() {
 }
 
 var errC18Plain = errors.New("c18 plain error")
+
+// c18MaxRate is the largest rate whose largest delay, (2^31-1) slots, still fits a time.Duration.
+const c18MaxRate = time.Duration(4294967298)
 
 // c18MultiErr is a plain (non-fatal) error whose dynamic type is not comparable.
 type c18MultiErr []error
@@ -192,7 +195,10 @@ func runC18Script(c *core.Ctx, s c18Script, maxSlot map[int]int64) {
 		if err != nil && bigbuff.VerifIsFatal(err) {
 			c.Violate("fatal-not-unwrapped", "the returned error is still wrapped by FatalError; %s", desc)
 		}
-		if len(calcs) != wantRetries || len(waits) != wantRetries {
+		if s.ending == "cancel-in-call-err" && inv == 0 && len(calcs) == s.k && len(waits) == s.k {
+			// the call in flight failed with the context already cancelled: whether a last delay is still drawn
+			// (and a wait that returns at once requested) before the cancellation is noticed is not part of the statement
+		} else if len(calcs) != wantRetries || len(waits) != wantRetries {
 			c.Violate("retry-count", "%d delays computed and %d waits requested, want %d; %s", len(calcs), len(waits), wantRetries, desc)
 		}
 		rate := s.rate
@@ -222,7 +228,7 @@ func runC18Script(c *core.Ctx, s c18Script, maxSlot map[int]int64) {
 }
 
 func c18Scripted(c *core.Ctx) {
-	rates := []time.Duration{-5, time.Nanosecond, time.Microsecond, 300 * time.Millisecond}
+	rates := []time.Duration{-5, time.Nanosecond, time.Microsecond, 300 * time.Millisecond, 2500 * time.Millisecond, c18MaxRate}
 	rate := rates[c.Index]
 	endings := []string{"success", "fatal1", "fatal2", "fatal3", "cancel-before", "cancel-in-call-err", "cancel-in-call-ok", "cancel-in-call-fatal", "cancel-in-wait"}
 	maxSlot := map[int]int64{}
